@@ -329,11 +329,16 @@ func (cx *Ctx) finish(ch Check, kf *knownFindings) int {
 	exit := 0
 	// violations: write replay files, print lines
 	sort.SliceStable(cx.violations, func(i, j int) bool { return cx.violations[i].Verdict.Key < cx.violations[j].Verdict.Key })
-	os.MkdirAll(filepath.Join(vd, "replay"), 0o755)
+	evDir, repDir := filepath.Join(vd, "evidence"), filepath.Join(vd, "replay")
+	if run.RepoDir() != "/repo" {
+		// trial runs against scratch copies (seeded changes) never touch the committed evidence
+		evDir, repDir = filepath.Join(os.TempDir(), "verif-trial", "evidence"), filepath.Join(os.TempDir(), "verif-trial", "replay")
+	}
+	os.MkdirAll(repDir, 0o755)
 	printed := 0
 	var vsamples []interface{}
 	for _, v := range cx.violations {
-		path := filepath.Join(vd, "replay", fmt.Sprintf("%s-%s.json", id, hash12(v.Verdict.Key)))
+		path := filepath.Join(repDir, fmt.Sprintf("%s-%s.json", id, hash12(v.Verdict.Key)))
 		rep := map[string]interface{}{
 			"property": id, "tier": cx.Tier, "seed": cx.Seed, "item": v.Item, "message": v.Verdict.Msg,
 			"class": v.Verdict.Class, "key": v.Verdict.Key, "sample": v.Verdict.Sample, "outcomes": summarizeOuts(v.Outs),
@@ -366,9 +371,9 @@ func (cx *Ctx) finish(ch Check, kf *knownFindings) int {
 	} else if len(cx.nontrivial) < 2 && exit == 0 {
 		broken = "fewer than 2 distinct non-trivial cases were observed"
 	}
-	os.MkdirAll(filepath.Join(vd, "evidence"), 0o755)
+	os.MkdirAll(evDir, 0o755)
 	b, _ := json.MarshalIndent(&ev, "", " ")
-	if err := os.WriteFile(filepath.Join(vd, "evidence", id+".json"), b, 0o644); err != nil {
+	if err := os.WriteFile(filepath.Join(evDir, id+".json"), b, 0o644); err != nil {
 		fmt.Fprintln(os.Stderr, "cannot write evidence:", err)
 		return 2
 	}
